@@ -127,6 +127,13 @@ fn children(open: &Node, cfg: &AlphaCfg, max_batch: usize) -> Vec<(String, Vec<T
             }
         }
     }
+    // a stake with a change output and the spend of that change
+    for (l, a, _) in alpha.iter() {
+        if a.kind == melstructs::TxKind::Stake && a.outputs.len() >= 2 {
+            let b = tx_t(melstructs::TxKind::Normal, vec![a.output_coinid(1)], vec![out_t(a.outputs[1].value.0, melstructs::Denom::Mel)], 0, vec![0xc8]);
+            v.push((format!("{}+spend-of-its-change", l), vec![a.clone(), b]));
+        }
+    }
     if max_batch >= 2 {
         for i in 0..alpha.len() {
             for j in (i + 1)..alpha.len() {
@@ -169,6 +176,31 @@ fn check_parent(run: &Run, pnode: &Node, cfg: &AlphaCfg, max_batch: usize) {
     let tasks: Vec<(String, Vec<Transaction>, Option<ProposerAction>)> = children(&open, cfg, max_batch).into_iter().flat_map(|(l, b)| actions.iter().map(move |a| (l.clone(), b.clone(), *a)).collect::<Vec<_>>()).collect();
     tasks.par_iter().for_each(|(label, batch, act)| {
         {
+            // a block built the way a proposer builds it - one transaction at a time - is honest too and must be accepted
+            if batch.len() >= 2 {
+                let seq = guard(|| {
+                    let mut u = parent.next_unsealed();
+                    for t in batch.iter() {
+                        u.apply_tx(t).ok()?;
+                    }
+                    Some(u.seal(*act))
+                });
+                if let Ok(Some(c)) = seq {
+                    let blk = c.to_block();
+                    judge(run, &parent, &blk, "honest-built-one-transaction-at-a-time", false, &path, &format!("{}{}", label, if act.is_some() { "/action" } else { "" }));
+                    // and here the first sentence is not enough (it is evaluated through the batch path): the statement says every honestly built block is accepted
+                    run.transition();
+                    if let Ok(Err(e)) = guard(|| parent.apply_block(&blk).map(|s| s.header())) {
+                        run.violation(
+                            "C06",
+                            "rejects-block-built-one-transaction-at-a-time".into(),
+                            format!("the block [{}] built on [{}] by applying its transactions one at a time and sealing is rejected by apply_block: {}", label, path, e),
+                            json!({"parent_path": path, "block": label, "block_stdcode_hex": hex::encode(stdcode::serialize(&blk).unwrap())}),
+                        );
+                    }
+                    run.validated();
+                }
+            }
             // honest child
             let child = guard(|| {
                 let mut u = parent.next_unsealed();
@@ -288,6 +320,7 @@ pub fn run(run: &Run) {
         ccfg.per_denom = 2;
         ccfg.swaps = true;
         ccfg.deposits = true;
+        ccfg.stakes = true;
         ccfg.adversarial = true;
         parents.par_iter().for_each(|p| check_parent(run, p, &ccfg, if thorough { 3 } else { 2 }));
     }
